@@ -38,31 +38,6 @@ theorem isBlackAttr_nul (a b : Bytes) : isBlackAttr (a ++ 0 :: b) = isBlackAttr 
 theorem black_tags_min_length : Gen.blackTags.all (fun t => decide (3 ≤ t.length)) = true ∧ SVT.length = 3 ∧ XSL.length = 3 := by
   decide +kernel
 
-theorem goUpper_length_le : ∀ (n : Nat) (s : Bytes), s.length ≤ n → (goUpper s).length ≤ s.length := by
-  intro n
-  induction n with
-  | zero => intro s h; have : s = [] := List.eq_nil_of_length_eq_zero (by omega); subst this; simp [goUpper]
-  | succ n ih =>
-    intro s h
-    match s with
-    | [] => simp [goUpper]
-    | [c] =>
-      by_cases h1 : c = 0xC4 <;> by_cases h2 : c = 0xC5 <;> simp [goUpper]
-    | c :: d :: t =>
-      by_cases p1 : c = 0xC4 ∧ d = 0xB1
-      · obtain ⟨rfl, rfl⟩ := p1
-        simp only [goUpper, List.length_cons]
-        have := ih t (by simp at h; omega); omega
-      · by_cases p2 : c = 0xC5 ∧ d = 0xBF
-        · obtain ⟨rfl, rfl⟩ := p2
-          simp only [goUpper, List.length_cons]
-          have := ih t (by simp at h; omega); omega
-        · have := goUpper_cons_generic c (d :: t) (by rintro ⟨rfl, u, hu⟩; cases hu; exact p1 ⟨rfl, rfl⟩)
-            (by rintro ⟨rfl, u, hu⟩; cases hu; exact p2 ⟨rfl, rfl⟩)
-          rw [this]
-          have := ih (d :: t) (by simp at h ⊢; omega)
-          simp at this ⊢; omega
-
 theorem isBlackTag_nul (a b : Bytes) : isBlackTag (a ++ 0 :: b) = isBlackTag (a ++ b) := by
   unfold isBlackTag
   rw [stripNul_insert]
